@@ -156,7 +156,7 @@ def run(ctx):
     from ..observe import install
     import dsw
     install([dsw.spiderweb, dsw.graphized, dsw.operation])
-    seeds = list(range(64 if ctx.quick else 1024)) + [2021, 2 ** 31 - 1, 2 ** 32 - 1]
+    seeds = list(range(256 if ctx.quick else 1024)) + [2021, 2 ** 31 - 1, 2 ** 32 - 1]
     cases = [(k, s) for k in range(1, 7) for s in (seeds if k <= 4 else seeds[:16 if ctx.quick else 128] + seeds[-3:])]
     cases.sort(key=lambda c: -c[0])
     ctx.pmap(_w_seed, core.chunks_of(cases, 8))
